@@ -50,6 +50,23 @@ def decode_case(raw):
             steps.append(s)
         else:
             steps.append({"op": ["touch", "scrub", "status"][t[1] % 3]})
+    if cfgt[11] % 5 == 0:
+        # link stage: a link recorded by one sync changes its kind AND its target before the next one (symbolic link replaced by a
+        # hard link, or the reverse)
+        d = cfgt[10] % nd
+        nm = gen.name_of(cfgt[9], True)
+        if cfgt[5] % 2 == 0:
+            pre = {"op": "symlink", "disk": d, "name": nm, "target": gen.name_of(cfgt[8], True)}
+            post = {"op": "hardlink", "disk": d, "fi": cfgt[7], "name": nm, "relink": True, "li": cfgt[6]}
+        else:
+            pre = {"op": "hardlink", "disk": d, "fi": cfgt[7], "name": nm}
+            post = {"op": "symlink", "disk": d, "name": nm, "target": gen.name_of(cfgt[8], True)}
+        at = [i for i, x in enumerate(steps) if x.get("op") == "sync" and not x.get("kill_after")]
+        if not at:
+            steps.append({"op": "sync"})
+            at = [len(steps) - 1]
+        steps.insert(at[0] + 1, post)
+        steps.insert(0, pre)
     steps.append({"op": "sync"})
     return {"cfg": cfg, "init": [gen.decode_fs((0,) + tuple(t[1:]), bs, nd) for t in init], "prog": steps}
 
@@ -328,7 +345,7 @@ def run_case(case, ctx):
                 classes.add(op)
             else:
                 ev = w.fs_step(s)
-                if ev and ev[0] in ("rewrite", "append", "truncate", "touch", "move", "rename", "file_to_dir", "file_to_link", "delete", "copy"):
+                if ev and ev[0] in ("rewrite", "append", "truncate", "touch", "move", "rename", "file_to_dir", "file_to_link", "delete", "copy", "relink"):
                     pending_interesting = True
                     classes.add("op " + ev[0])
         fp = hashlib.sha1(json.dumps(case, sort_keys=True).encode()).hexdigest()[:16]
